@@ -189,9 +189,11 @@ def r4(chk, ctx):
                 chk.ob("C15.R4", "%s: literal %r spells the suffix exactly" % (mn, c.value), exact, "", key="%s | suffix literal %r" % (mn, c.value), where=m.line(c), message="writer, dispatcher and API must agree on the suffix")
     chk.floor("C15.R4", n, 8, "occurrences of the token suffix literal")
     txt = [norm(s) for s in ast.walk(h.node) if isinstance(s, ast.stmt)]
-    ok = any(t.startswith("if request_has_waitForTaskToken and error_type == None") for t in txt)
+    # since fix a4cb665 the guard tests truthiness (`not error_type`), like every other test of errorType on the path: "" and 0 are no error
+    GUARDS = ("request_has_waitForTaskToken and (not error_type)", "request_has_waitForTaskToken and not error_type")
+    ok = any(t.startswith(tuple("if " + g for g in GUARDS)) for t in txt)
     chk.ob("C15.R4", "the worker's own (non-error) reply does not complete a token task", ok, "", key="%s | token task completes only through the callback" % h.qname, where=h.where(), message="")
-    guard = [i for i in body_nodes(h) if isinstance(i, ast.If) and norm(i.test).startswith("request_has_waitForTaskToken and error_type == None")]
+    guard = [i for i in body_nodes(h) if isinstance(i, ast.If) and norm(i.test).startswith(GUARDS)]
     eds = [x for x in name_defs(h, "error_type") if isinstance(x, ast.Assign) and guard and x.lineno < guard[0].lineno]
     vals = sorted(norm(x.value) for x in eds)
     ok = vals == ["None", "result.get('errorType')"]
@@ -298,6 +300,8 @@ def run(chk, ctx):
     from . import round4, c04
     round4.canceller_removal_callers(chk, ctx)
     round4.task_outcome_once(chk, ctx)
+    from . import round5
+    round5.request_removal_clears_timer(chk, ctx)   # a retried child execution is not timed out by the cancelled attempt's timer
     round3.rest_no_instance_identity(chk, ctx)   # a token is honoured by whichever instance receives the call
     c04.r3(chk, ctx)                         # each launch has its own correlation key / child name
     chk.assume("base64 round-trips; ':' does not occur in event ids (uuid4) or reply queue names")
